@@ -19,7 +19,8 @@ EXPLANATION = ("Effect analysis on the -O0 LLVM-IR call graph of witness instant
                "std::filesystem::path) must be reported, proving the rule bites. R4: every log macro's expansion reaches nothing "
                "else. Induction over type structure: a container codec calls only its element codecs, so the instantiated base and "
                "step cases cover every combination."
-               ' R5 (= C04.R2): every size pass starts from an empty size cache. R6 (= C09.R1): the consumer publishes its read position after a batch and when drained.')
+               ' R5 (= C04.R2): every size pass starts from an empty size cache. R6 (= C09.R1): the consumer publishes its read position after a batch and when drained.'
+               " R7 (= C09.R3): every read pass that consumed bytes commits them (else the producer grows a nearly empty queue). R8: no path to the 'maximum reached: return nullptr' exit of _handle_full_queue constructs a string, an exception object or a node.")
 NOT_DECIDED = ("Page faults / first touch of the mapped ring, allocations inside user copy constructors of placement-deferred types and "
                "inside user clocks (excluded by the property), the 13th variable-length string of one statement.")
 ASSUMPTIONS = ["libstdc++ externals on the allowlist do not allocate (size/data accessors, tree/list iteration, clocks, nanosleep)",
